@@ -426,6 +426,10 @@ func checkC18(c *Check) {
 
 	c18LocalImportMark(c)
 
+	c.Counts["constant_trim_cutsets"] = pathCutsets(c, "PATH-CUTSET", func(pk string) bool {
+		return pk == repoMod+"/pkg/parse" || pk == repoMod+"/pkg/syslutil" || pk == repoMod+"/pkg/loader" || pk == repoMod+"/pkg/mod" || pk == repoMod+"/cmd/sysl" || pk == repoMod+"/pkg/pbutil"
+	})
+
 	// --- rule 1: funnel
 	var scope []*ssa.Function
 	for _, m := range ci.methods {
